@@ -19,11 +19,15 @@ def run(ctx):
     runs = [("cyclic-nogroup", "mem", 800 if quick else 10000, "failures"),
             ("cyclic", "mem", 600 if quick else 8000, None),   # cycles + unordered groups: which member of a group meets the cycle first is a scheduling matter, so even answers may differ legitimately: oracle only
             ("cyclic-nogroup", "db:2", 200 if quick else 2000, "failures")]
+    cyc_judged, cyc_inc, cyc_inc_first = 0, 0, None
     for k, (mode, cfg, n, fn) in enumerate(runs):
         d = os.path.join(ctx.rundir, f"{mode}_{cfg.replace(':', '')}")
         st = ec.run_hist(ctx, d, ctx.seed + 17 * k + 3, n, 16, cfg, mode, hang_secs=10)
         dists[f"{mode}/{cfg}"] = ec.dist(st)
         hist_total += st["histories"]
+        cyc_judged += st.get("answers_judged_with_cycle_defaults", 0)
+        cyc_inc += st.get("n_cyclic_incremental", 0)
+        cyc_inc_first = cyc_inc_first or st.get("cyclic_incremental_first")
         for v in st["c01"] + st["hangs"]:
             real_fail.append({"mode": mode, "cfg": cfg, **v})
         dis, t = ec.model_compare("C06", d, fn) if fn else ([], 0)
@@ -55,6 +59,21 @@ def run(ctx):
             ctx.finding(key, f"witness/{w} hangs at its last query", {"witness": open(os.path.join(vlib.VERIF, "witness", w)).read(), "output": txt[-500:]})
         elif status != "ok":
             real_fail.append({"mode": "witness " + w, "violation": status, "scenario": txt[-1500:]})
+    # recorded finding: cycle membership is not re-established incrementally.  Two deterministic witnesses;
+    # instances met by the random runs are counted (a FRESH evaluation through a cycle is judged strictly)
+    inc_hits = []
+    for w in ("c06_cycle_formed_under_repair.txt", "c06_cycle_member_reexecuted_alone.txt"):
+        status, txt = ec.replay_witness(os.path.join(vlib.VERIF, "witness", w))
+        m = [l for l in txt.splitlines() if l.startswith("cyclic incremental: [") and not l.startswith("cyclic incremental: []")]
+        if status == "ok" and m:
+            inc_hits.append({"witness": w, "what": m[0][:400]})
+        elif status != "ok":
+            real_fail.append({"mode": "witness " + w, "violation": status, "scenario": txt[-1500:]})
+    if inc_hits or cyc_inc:
+        ctx.finding("c06_incremental_scc_membership",
+                    (inc_hits[0]["witness"] + ": " + inc_hits[0]["what"]) if inc_hits else str(cyc_inc_first),
+                    {"witnesses": inc_hits, "random_histories_with_an_instance": cyc_inc, "first_random_instance": cyc_inc_first,
+                     "answers_judged_with_cycle_defaults": cyc_judged})
     # thorough: all kinds on cycles (hangs of the two recorded classes are expected there and filtered by shape)
     if real_fail:
         ctx.violation("cycle_failure.json", {"what": "cyclic program: hang, panic or wrong value on the real engine", "first": real_fail[0], "count": len(real_fail)})
@@ -68,8 +87,9 @@ def run(ctx):
                                                      "search": f"{st2['histories']} further cyclic histories: no hang, no panic, acyclic sub-queries right"}, found_input=False)
     cov = vlib.proof_coverage(info, "./check C06", TB)
     cov.update({"traces_validated_against_impl": total, "evaluations": hist_total, "distinct_nontrivial": total,
-                "rule": "random programs in which a body may read any query including itself and later ones (normal queries; unordered groups in the second run), random histories whose edits switch conditional cycle edges on and off; oracle: progress within 10 s, no panic, every value whose from-scratch evaluation meets no cycle equals it; model: exact answers (and executions where no unordered group is involved)",
-                "samples": samples, "input_distribution": dists, "disagreements_checked": len(dis_all), "f5": f5, "diamond": dia})
+                "rule": "random programs in which a body may read any query including itself and later ones (normal queries; unordered groups in the second run), random histories whose edits switch conditional cycle edges on and off; oracle: progress within 10 s, no panic, every value whose from-scratch evaluation meets no cycle equals it, every answer of a FRESH engine equals the from-scratch evaluation with cycle defaults (harness oracle_cyclic); answers through a cycle on an engine that has computed before are compared too and counted as instances of the recorded finding c06_incremental_scc_membership; model: exact answers (and executions where no unordered group is involved)",
+                "samples": samples, "input_distribution": dists, "disagreements_checked": len(dis_all), "f5": f5, "diamond": dia,
+                "answers_judged_with_cycle_defaults": cyc_judged, "histories_with_incremental_scc_instances": cyc_inc})
     return ctx.finish("proof", cov, TB)
 
 def replay(ctx, path):
